@@ -107,7 +107,23 @@ class Gen:
         out: List[str] = []
         rec = self.scopes.setdefault(scope, {})
         for _ in range(self.draw(st.integers(2, 5) if depth == 0 else st.integers(1, 3))):
-            kind = self.draw(st.sampled_from(['class', 'func', 'func', 'var', 'var', 'decoy'] if depth < 2 else ['func', 'var']))
+            kind = self.draw(st.sampled_from(['class', 'func', 'func', 'var', 'var', 'decoy'] + (['family'] if depth == 0 else []) if depth < 2 else ['func', 'var']))
+            if kind == 'family':
+                # a small hierarchy below a builtin exception (or a plain class), whose root may be defined a second time after
+                # its subclasses: every member has the kind of the root whatever the order of registration
+                exc = self.draw(st.booleans())
+                root_base = self.draw(st.sampled_from(EXC_BASES)) if exc else self.draw(st.sampled_from(['object', 'Plain']))
+                names = ['K%d' % self.uid() for _ in range(self.draw(st.integers(2, 3)))]
+                prev = root_base
+                for nm in names:
+                    out += [indent + 'class %s(%s):' % (nm, prev), indent + '    """One line %d."""' % self.uid()]
+                    rec[nm] = {'cat': 'class', 'exception': exc}
+                    self.scopes[scope + '.' + nm] = {}
+                    prev = nm
+                if self.draw(st.booleans()):
+                    out += [indent + 'class %s(%s):' % (names[0], root_base), indent + '    """One line %d."""' % self.uid()]
+                self.interesting = True
+                continue
             if kind == 'class':
                 name = 'K%d' % self.uid()
                 exc = self.draw(st.integers(0, 2)) == 0
@@ -118,6 +134,15 @@ class Gen:
                 elif self.draw(st.booleans()):
                     cand = ['object', 'Plain'] + [n for n, e in self.local_classes if not e]
                     bases = [self.draw(st.sampled_from(cand))]
+                # sometimes define an earlier class of this scope again (same bases, new body): the later definition is the one
+                # Python keeps; classes defined in between still derive from a class of the same kind
+                earlier_classes = [n for n, r in rec.items() if r['cat'] == 'class' and 'header' in r]
+                if earlier_classes and self.draw(st.integers(0, 3)) == 0:
+                    name = self.draw(st.sampled_from(earlier_classes))
+                    exc, bases = rec[name]['header']
+                    self.interesting = True
+                    for k_ in [k_ for k_ in self.scopes if k_ == scope + '.' + name or k_.startswith(scope + '.' + name + '.')]:
+                        del self.scopes[k_]
                 lines = [indent + 'class %s%s:' % (name, '(%s)' % ', '.join(bases) if bases else '')]
                 dl, dinfo = self.docstring(indent + '    ')
                 lines += dl
@@ -125,8 +150,8 @@ class Gen:
                 lines += body or [indent + '    pass']
                 if not dl and not body:
                     pass
-                rec[name] = {'cat': 'class', 'exception': exc}
-                if depth == 0 and not in_class:
+                rec[name] = {'cat': 'class', 'exception': exc, 'header': (exc, bases)}
+                if depth == 0 and not in_class and (name, exc) not in self.local_classes:
                     self.local_classes.append((name, exc))
                 out += self.wrap(lines, indent)
             elif kind == 'func':
